@@ -838,6 +838,78 @@ func runC17(c *CaseCtx) *CaseResult {
 				return fail(err)
 			}
 		}
+		// mini sources: few entries with values of extreme sizes, so that the close-out of the batch build meets an underfull
+		// last data slab whose sibling cannot lend (merge arm), also behind filler entries (multi-level trees)
+		{
+			minis := 60
+			if c.Tier == "thorough" {
+				minis = 400
+			}
+			vlim := int(atree.VerifMaxInlineMapValueSize(3))
+			sizes := []int{3, 40, vlim / 2, vlim - 1, vlim, vlim / 3}
+			for b := 0; b < minis; b++ {
+				src, err := w.NewRootMap(w.addr, w.newTI(false), nil)
+				if err != nil {
+					return fail(err)
+				}
+				w.AddRoot(src)
+				n := 2 + r.Intn(13)
+				if b%5 == 4 {
+					n += 30 + r.Intn(100)
+				}
+				for i := 0; i < n; i++ {
+					sz := sizes[r.Intn(len(sizes))]
+					if i < n-14 {
+						sz = vlim/2 + r.Intn(4)
+					}
+					var v *Node
+					if sz <= 3 {
+						v = &Node{Kind: KU8, U: uint64(i)}
+					} else {
+						v = &Node{Kind: KStr, S: w.strOfByteSize(sz)}
+					}
+					if err := w.OpMapSet(src, &Node{Kind: KU64, U: uint64(r.Intn(1 << 20))}, v); err != nil {
+						return fail(err)
+					}
+				}
+				it, err := src.Map.ReadOnlyIterator()
+				if err != nil {
+					return fail(viol("bulk-build", "source iterator: %v", err))
+				}
+				w.nextNID++
+				cp := &Node{Kind: KMap, TI: src.TI, Addr: w.addr, M: map[string]*Entry{}, nid: w.nextNID}
+				m, err := atree.NewMapFromBatchData(w.st, w.addr, w.builderFor(cp), src.TI, w.cb.Compare, w.cb.HashInput, src.Map.Seed(),
+					func() (atree.Value, atree.Value, error) {
+						k, v, err := it.Next()
+						if err != nil || k == nil {
+							return nil, nil, err
+						}
+						return k, v, nil
+					})
+				if err != nil {
+					return fail(viol("bulk-build", "NewMapFromBatchData(mini source of %d) failed: %v", len(src.M), err))
+				}
+				for ks, e := range src.M {
+					cp.M[ks] = &Entry{Key: cloneModel(e.Key), Val: cloneModel(e.Val), Seq: e.Seq}
+				}
+				cp.seq = src.seq
+				cp.Map, cp.VID = m, m.ValueID()
+				w.AddRoot(cp)
+				if err := w.CheckTree(true); err != nil {
+					return fail(err)
+				}
+				if err := w.CheckDeep(); err != nil {
+					return fail(err)
+				}
+				res.Obs["batch-mini-sources"]++
+				if err := w.diverge(cp, src, 0); err != nil {
+					return fail(err)
+				}
+				if err := w.diverge(src, nil, 0); err != nil {
+					return fail(err)
+				}
+			}
+		}
 	case 2: // CopyNonRefSimple matrix
 		kinds := []string{"plain", "wrapped", "large", "nested-inlined", "nested-standalone", "group", "multi-slab"}
 		rounds := 2
@@ -1170,6 +1242,6 @@ func init() {
 			"copy: matrix {array,map} x {plain, wrapped, large value, nested inlined, nested standalone, collision group, multi-slab} x {standalone, inlined source}: CanCopyNonRefSimple must equal (single slab AND all elements plain non-reference) computed from the model, an offered copy must succeed, a refused copy must return a copy error; bytes: ByteSliceToByteArray/ByteArrayToByteSlice round trips for lengths around the single-slab fast-path boundary x estimates {0,1,3,4,100}, foreign element => typed error. " +
 			"Every result is compared with the model (API deep compare + structural walk + in-repo verifier + byte-level sizes + reachability with both values as roots), then a divergence phase mutates one side with the other re-checked after each step, then one side is disposed of and the other must survive alone. non-trivial = divergence phase ran and (copy mode or a result spanning >=3 slabs); distinct by hash(config, operation list)",
 		Assumptions: []string{"batch-built maps are fed from a read-only iteration of the source (scalar/string keys and values)", "exploration, not proof"},
-		Mandatory:   []string{"batch-arrays-built", "batch-arrays-multi-slab", "batch-mini-streams", "batch-maps-built", "copies-made", "copies-of-inlined-sources", "byte-conversions", "byte-conversions-multi-slab", "divergence-phases"},
+		Mandatory:   []string{"batch-arrays-built", "batch-arrays-multi-slab", "batch-mini-streams", "batch-maps-built", "batch-mini-sources", "copies-made", "copies-of-inlined-sources", "byte-conversions", "byte-conversions-multi-slab", "divergence-phases"},
 	})
 }
